@@ -66,6 +66,10 @@ def jobs(tier, seed):
             add(d, input="derivative", var=vs[0])
     for d in chains(rng, 40 if tier == "quick" else 200, 6, 39):
         add(d)
+    for d in (pats + f2)[::(7 if tier == "quick" else 2)]:
+        if rt.variables_of(d):
+            for w in ("Reciprocal", "Negation"):
+                add(d, input="composed", wrap=w)
     for d in sym_n():
         add(d, int_inputs=["n1", "n2"])
     if tier == "thorough":
@@ -130,6 +134,15 @@ def analyse(outs, twin=False):
         warns, n1, n2 = fu["value"]
         if size <= 20:
             res.append(("no-give-up-warning-for-<=20-nodes", None if not warns else f"warning: {warns[:1]}"))
+        if len(outs) > 4:
+            sw = outs[4]
+            if sw["kind"] != "value":
+                res.append(("second-reduction-of-the-same-object-terminates", f"{sw['kind']} {sw.get('msg', '')}"))
+            else:
+                k2, done2, same2, norevisit2 = sw["value"]
+                res.append(("second-reduction-of-the-same-object-terminates", None if (done2 and norevisit2 and k2 <= bound) else
+                            f"second walk: {k2} steps, fully reduced {done2}, no form revisited {norevisit2}"))
+                res.append(("second-reduction-reaches-the-same-form", None if same2 else "the second reduction of the same object ends in a different form"))
         # (n1 != n2 is NOT checked: _normalize() is not idempotent - its normal-form pass can expose new rule instances, e.g. two
         #  reciprocals of equal powers become a product of equal powers - and the property does not ask for idempotence; see DESIGN.md)
     return res
